@@ -67,7 +67,7 @@ def jsonable(x, depth=0):
 
 class CaseResult:
     __slots__ = ('violations', 'stats', 'nontrivial', 'sig', 'sample', 'inconclusive',
-                 'dirty', 'cov', 'switch_cov')
+                 'dirty', 'cov', 'switch_cov', 'tags')
 
     def __init__(self):
         self.violations = []      # list of dict(sig=str, what=str, detail=..)
@@ -79,6 +79,7 @@ class CaseResult:
         self.dirty = False        # process must be restarted after this case
         self.cov = None           # {(qualname, line): n}
         self.switch_cov = None
+        self.tags = None          # set of 'prefix:detail' strings; distinct ones are counted per prefix
 
     def violate(self, sig, what, **detail):
         self.violations.append({'sig': sig, 'what': what, 'detail': jsonable(detail)})
@@ -157,6 +158,7 @@ def worker_main(argv):
     samples = []
     cov = collections.Counter()
     swcov = set()
+    tags = set()
     n = 0
     truncated = 0
     resume = None
@@ -192,6 +194,8 @@ def worker_main(argv):
             cov.update(r.cov)
         if r.switch_cov:
             swcov.update(r.switch_cov)
+        if r.tags:
+            tags.update(r.tags)
         for v in r.violations:
             nviol += 1
             if nviol <= 40:
@@ -206,6 +210,7 @@ def worker_main(argv):
         'nviol': nviol, 'resume': resume, 'last_idx': idx,
         'cov': [[k[0], k[1], c] for k, c in cov.items()],
         'swcov': [[k[0], k[1]] for k in swcov],
+        'tags': sorted(tags),
     }
     out.write(json.dumps(final) + '\n')
     out.close()
@@ -320,6 +325,7 @@ def _conclude(check, pid, tier, seed, records, failed_shards, t0, verbose, resta
     swcov = set()
     viols = []
     incs = []
+    tags = set()
     for r in records:
         if r['t'] == 'final':
             stats.update(r['stats'])
@@ -332,6 +338,7 @@ def _conclude(check, pid, tier, seed, records, failed_shards, t0, verbose, resta
                 cov[(q, l)] += c
             for q, l in r['swcov']:
                 swcov.add((q, l))
+            tags.update(r.get('tags', ()))
         elif r['t'] == 'viol':
             viols.append(r)
         elif r['t'] == 'inc':
@@ -388,6 +395,7 @@ def _conclude(check, pid, tier, seed, records, failed_shards, t0, verbose, resta
         'inconclusive_cases': len(incs),
         'inconclusive_examples': [i['reason'] for i in incs[:3]],
         'floors': floors,
+        'distinct_observed': dict(sorted(collections.Counter(t.split(':', 1)[0] for t in tags).items())),
         'known_finding_hits': dict(collections.Counter(v['v']['sig'] for v in known_v)),
         'new_violation_signatures': sorted({v['v']['sig'] for v in new_v}),
     }
